@@ -45,13 +45,14 @@ Proof.
 Qed.
 Print Assumptions C17_all_or_nothing.
 
-(* PostgreSQL (modelled from postgres.py, fault-free; tied to the real PGProvider / PGPool driven with a recording stub
-   connection, never executed against a server): for every sequence of sessions of any shape, with any selects, writes,
-   commits and rollbacks, ending normally or with an exception, and whatever autocommit state the first connection starts in,
-   every write statement is executed with connection.autocommit = False - inside a driver transaction that only commit()
-   ends - and autocommit is never assigned while a transaction is open. *)
-Theorem C17_postgres_autocommit : forall sessions ac,
-  pg_writes_ok (g_trace (pg_run sessions (pg_init ac))) = true /\ g_bad (pg_run sessions (pg_init ac)) = false.
+(* PostgreSQL (modelled from postgres.py WITH a fault oracle: any driver call - execute, commit, rollback, close - may raise a
+   database error that is not a lost connection; tied to the real PGProvider / PGPool / SessionCache code driven with a recording,
+   fault-injecting stub connection, never executed against a server): for every sequence of sessions of any shape, with any
+   selects, writes, commits and rollbacks, caught or uncaught errors, ending normally or with an exception, and whatever autocommit
+   state the first connection starts in, every successful write and every COMMIT is issued with connection.autocommit = False -
+   inside a driver transaction that only commit() ends - and autocommit is never assigned while a transaction is open. *)
+Theorem C17_postgres_autocommit : forall oracle sessions ac,
+  pg_writes_ok (g_trace (pg_run oracle sessions (pg_init ac))) = true /\ g_bad (pg_run oracle sessions (pg_init ac)) = false.
 Proof. exact pg_writes_lemma. Qed.
 Print Assumptions C17_postgres_autocommit.
 
